@@ -445,3 +445,70 @@ def build_class(spec: ClassM, base=None, extra_ns=None):
     cls._pv_spec = spec
     cls._pv_post_init_log = log
     return cls
+
+
+def _flat_union_args(obj):
+    out = []
+    for a in t.get_args(obj):
+        if t.get_origin(a) is t.Union:
+            out.extend(_flat_union_args(a))
+        else:
+            out.append(a)
+    return out
+
+
+def conforms(ty: Ty, obj, depth=0) -> bool:
+    """
+    Does the Python type object really have the member order of the AST?  typing caches parametrised aliases by
+    *equality* of their arguments and Union[int, float] == Union[float, int], so building List[Union[float, int]]
+    may hand back an older List[Union[int, float]].  Such objects are not the type the AST describes; cases
+    using them are skipped (counted), never judged.
+    """
+    if depth > 12:
+        return True
+    k = ty.k
+    try:
+        if k == 'union':
+            if t.get_origin(obj) is not t.Union:
+                return False
+            args = _flat_union_args(obj)
+            if len(args) != len(ty.a):
+                return False
+            for m, a in zip(ty.a, args):
+                if m.k in ('int', 'float', 'complex', 'bool', 'str', 'bytes', 'bytearray', 'none', 'decimal', 'fraction', 'date', 'time',
+                           'datetime', 'any', 'path', 'sub', 'enum', 'dc'):
+                    if build(m) is not a and build(m) != a:
+                        return False
+                elif not conforms(m, a, depth + 1):
+                    return False
+            return True
+        if k in ('list', 'seq', 'deque', 'set', 'vol', 'counter'):
+            if ty.x.get('bare'):
+                return True
+            args = t.get_args(obj)
+            return bool(args) and conforms(ty.a[0], args[0], depth + 1)
+        if k == 'tup':
+            args = obj if isinstance(obj, tuple) else t.get_args(obj)
+            if args == ((),):
+                args = ()
+            return len(args) == len(ty.a) and all(conforms(c, a, depth + 1) for c, a in zip(ty.a, args))
+        if k == 'dict':
+            if ty.x.get('bare'):
+                return True
+            args = t.get_args(obj)
+            return len(args) == 2 and conforms(ty.a[0], args[0], depth + 1) and conforms(ty.a[1], args[1], depth + 1)
+        if k == 'struct':
+            return all(conforms(c, obj[n], depth + 1) for n, c in zip(ty.x['keys'], ty.a))
+        if k == 'cond':
+            return conforms(ty.a[0], t.get_args(obj)[0], depth + 1)
+        if k == 'tagged':
+            return all(conforms(m, a, depth + 1) for m, a in zip(ty.a, _flat_union_args(t.get_args(obj)[0])))
+        if k == 'dc':
+            info = getattr(obj, '__pane_info__', None)
+            if info is None:
+                return True
+            by_name = {f.name: f.type for f in info.fields}
+            return all(conforms(f.ty, by_name[f.name], depth + 1) for f in ty.x['spec'].fields if f.name in by_name)
+    except Exception:
+        return False
+    return True
